@@ -27,7 +27,7 @@ type Program struct {
 	loadErrs  []string
 }
 
-var initAllow = []string{"errors", "io", "context", "unicode/utf8", "strings", "unicode", "sort", "bytes"}
+var initAllow = []string{"errors", "io", "context", "unicode/utf8", "strings"}
 
 // LoadProgram type-checks /repo (plus the overlay harness files) and builds SSA for the import closure.
 func LoadProgram(repo string, harnessDir string, files []string) (*Program, error) {
